@@ -142,7 +142,13 @@ var (
 	errGone     = errors.New("simulated: process is gone")
 )
 
-func errBusy() error { return sqlite3.Error{Code: sqlite3.ErrBusy} }
+// errBusy is SQLITE_BUSY or, for "locked", SQLITE_LOCKED: the two lock-conflict codes.
+func errBusy(locked bool) error {
+	if locked {
+		return sqlite3.Error{Code: sqlite3.ErrLocked}
+	}
+	return sqlite3.Error{Code: sqlite3.ErrBusy}
+}
 
 func isBusy(err error) bool {
 	var se sqlite3.Error
@@ -169,7 +175,7 @@ func (c *simConn) who(ctx context.Context) (string, bool) {
 
 // gate parks the statement in a seam and returns the driver's decision.
 // "ok" = execute on SQLite; "bypass" = execute without parking (setup);
-// anything else = do not execute, fail with faultErr(kind).
+// anything else = do not execute, fail with c.faultErr(kind, key).
 func (c *simConn) gate(ctx context.Context, name, digest string) (party string, kind, arg string) {
 	party, ok := c.who(ctx)
 	if !ok {
@@ -191,10 +197,15 @@ func (c *simConn) gate(ctx context.Context, name, digest string) (party string, 
 	return party, d.Kind, d.S
 }
 
-func faultErr(kind string) error {
+func (c *simConn) faultErr(kind, key string) error {
 	switch kind {
 	case "db.busy":
-		return errBusy()
+		// which of the two codes: a content-keyed choice (this runs on the caller's goroutine)
+		locked := kernel.HashChoice(c.e.s.Seed, "locked|"+key, 3) == 0
+		if locked {
+			c.e.s.Probe("fault.sqlite-locked")
+		}
+		return errBusy(locked)
 	case "db.err":
 		return errInjected
 	}
@@ -243,7 +254,7 @@ func (c *simConn) Begin() (driver.Tx, error) {
 func (c *simConn) BeginTx(ctx context.Context, opts driver.TxOptions) (driver.Tx, error) {
 	party, kind, _ := c.gate(ctx, "sql.begin", "begin")
 	if kind != "ok" && kind != "bypass" {
-		return nil, faultErr(kind)
+		return nil, c.faultErr(kind, party+"|begin")
 	}
 	tx, err := c.real.BeginTx(context.Background(), opts)
 	if err != nil {
@@ -259,12 +270,18 @@ func (c *simConn) BeginTx(ctx context.Context, opts driver.TxOptions) (driver.Tx
 
 func (c *simConn) QueryContext(ctx context.Context, query string, args []driver.NamedValue) (driver.Rows, error) {
 	cls := stmtClass(query)
-	party, kind, _ := c.gate(ctx, "sql.query", cls)
-	if kind != "ok" && kind != "bypass" {
-		return nil, faultErr(kind)
+	party, kind, arg := c.gate(ctx, "sql.query", cls)
+	if kind != "ok" && kind != "bypass" && arg != "at-rows" {
+		return nil, c.faultErr(kind, party+"|query")
 	}
 	rows, err := c.real.QueryContext(context.Background(), query, args)
 	c.observeReal(party, cls, err)
+	if err == nil && arg == "at-rows" {
+		// the statement starts fine and fails while its rows are read (sqlite3_step):
+		// the caller sees the error from rows.Next / Row.Scan, not from Query
+		c.e.s.Probe("fault.at-rows")
+		return &failingRows{Rows: rows, err: c.faultErr(kind, party+"|rows")}, nil
+	}
 	return rows, err
 }
 
@@ -272,12 +289,20 @@ func (c *simConn) ExecContext(ctx context.Context, query string, args []driver.N
 	cls := stmtClass(query)
 	party, kind, _ := c.gate(ctx, "sql.exec", cls)
 	if kind != "ok" && kind != "bypass" {
-		return nil, faultErr(kind)
+		return nil, c.faultErr(kind, party+"|exec")
 	}
 	res, err := c.real.ExecContext(context.Background(), query, args)
 	c.observeReal(party, cls, err)
 	return res, err
 }
+
+// failingRows yields an error instead of the first row.
+type failingRows struct {
+	driver.Rows
+	err error
+}
+
+func (r *failingRows) Next(dest []driver.Value) error { return r.err }
 
 type simTx struct {
 	c    *simConn
@@ -318,7 +343,7 @@ func (t *simTx) Commit() error {
 	if party != "" {
 		c.e.note(party, "end")
 	}
-	return faultErr(kind)
+	return c.faultErr(kind, party+"|commit")
 }
 
 // Rollback always rolls the SQLite transaction back (a dead process loses its
@@ -334,7 +359,7 @@ func (t *simTx) Rollback() error {
 	if kind == "ok" || kind == "bypass" {
 		return err
 	}
-	return faultErr(kind)
+	return c.faultErr(kind, party+"|rollback")
 }
 
 var (
